@@ -194,6 +194,7 @@ def extract(ctx, finfo, grid_param, mean_param, np_aliases=("np", "numpy")):
                 and base.value.func.value.id == darr and not base.value.args:
             facts.cumsum_ok = True
     facts.shift = shifts[0] if len(shifts) == 1 else None
+    facts.shift_unconditional = facts.shift is not None and flow.cfg.dominates(flow.cfg.node(facts.shift), flow.cfg.node(ret))
     facts.shift_ok = False
     facts.shift_desc = "no single shift statement"
     if facts.shift is not None:
@@ -308,3 +309,8 @@ def report(chk, rule_cells, rule_shift, finfo, facts, probs, what, integral_desc
     chk.ob(rule_shift, facts.shift_ok, where_of(finfo, facts.shift if facts.shift is not None else facts.ret),
            facts.shift_desc, "curve + requested mean - mean(curve)", key="%s|mean-shift" % q,
            why="the mean of the returned curve must equal the requested mean")
+    if facts.shift is not None:
+        chk.ob(rule_shift, facts.shift_unconditional, where_of(finfo, facts.shift),
+               "the mean shift is applied %s" % ("on every path to the return" if facts.shift_unconditional else "only on some paths (it does not dominate the return)"),
+               "applied unconditionally", key="%s|mean-shift-unconditional" % q,
+               why="a requested mean of exactly 0.0 (the default) is falsy: `if mean:` returns the un-centred curve")
